@@ -161,7 +161,7 @@ class Materialised:
         self._future: dict[int, bool] = {}
         try:
             self._collect(spec)
-            self.root_expr = self.expr(spec, at_mod=None)
+            self.root_expr = self.expr(spec, at_mod=None, quote_refs=False)
             self.ns = self._eval_ns()
             self.root = eval(self.root_expr, self.ns)  # noqa: S307
         except BaseException:
@@ -906,13 +906,31 @@ def default_src(spec, enum_expr=None):
 
 
 class Names:
-    """Fresh names per generated spec (class/alias/enum)."""
+    """Fresh names per generated spec (class/alias/enum).
 
-    def __init__(self):
+    adversarial=True draws class names from a tiny pool so that equal class names occur in different
+    modules, and records finished classes / composite sub-specs so that later positions can reuse
+    them (diamonds, one generic reachable on several paths)."""
+
+    POOL = ["A", "B", "Item"]
+
+    def __init__(self, adversarial=False):
         self.n = itertools.count()
+        self.adversarial = adversarial
+        self.used = set()
+        self.closed = []      # (mod, name) of finished classes
+        self.generics = []    # finished composite sub-specs (reused by identity)
 
     def fresh(self, prefix):
         return f"{prefix}{next(self.n)}"
+
+    def class_name(self, draw, mod):
+        if self.adversarial:
+            for cand in draw(st.permutations(self.POOL)):
+                if (mod, cand) not in self.used:
+                    self.used.add((mod, cand))
+                    return cand
+        return self.fresh("C")
 
 
 ENUM_VALUE_POOLS = {
@@ -954,10 +972,10 @@ def scalar_specs(pool=None):
 @st.composite
 def specs(draw, names: Names | None = None, *, max_depth=3, hashable=False, key=False, unions=True,
           wide_unions=True, open_classes=(), mods=1, scalars=None, wrappers=True, classes=True, str_keys=False,
-          recursion=True, _root=True):
+          recursion=True, adversarial=False, _root=True):
     """A type spec of U. `open_classes`: enclosing classes that may be referred to recursively
     (only through an Optional / list / dict / vtuple edge)."""
-    names = names or Names()
+    names = names or Names(adversarial)
     kw = dict(names=names, unions=unions, wide_unions=wide_unions, mods=mods, scalars=scalars, wrappers=wrappers,
               classes=classes, str_keys=str_keys, recursion=recursion, _root=False)
     sub = lambda **o: specs(**{**kw, "max_depth": max_depth - 1, "open_classes": open_classes, **o})  # noqa: E731
@@ -987,7 +1005,7 @@ def specs(draw, names: Names | None = None, *, max_depth=3, hashable=False, key=
         if unions and wide_unions:
             kinds += ["union"]
         if classes:
-            kinds += ["class"] * 4
+            kinds += ["class"] * (8 if names.adversarial else 4)
         if wrappers:
             kinds += ["newtype", "alias", "stralias"]
         if hashable:
@@ -996,7 +1014,17 @@ def specs(draw, names: Names | None = None, *, max_depth=3, hashable=False, key=
             kinds = [k for k in kinds if k not in ("optional", "union")]
     if open_classes and recursion and max_depth >= 1 and not hashable:
         kinds = kinds + ["recurse"] * 3
+    if names.adversarial and recursion and not hashable and not key:
+        if names.closed:
+            kinds = kinds + ["diamond"] * 3
+        if names.generics and max_depth >= 2:
+            kinds = kinds + ["repeat"] * 3
     k = draw(st.sampled_from(kinds))
+    if k == "diamond":
+        m, n = draw(st.sampled_from(names.closed))
+        return {"k": "ref", "name": n, "mod": m}
+    if k == "repeat":
+        return draw(st.sampled_from(names.generics))
 
     if k == "scalar":
         return S(draw(st.sampled_from(scalars or SCALARS)))
@@ -1016,14 +1044,20 @@ def specs(draw, names: Names | None = None, *, max_depth=3, hashable=False, key=
             return {"k": "dict", "a": [S("str"), ref], "sp": "dict"}
         return {"k": "vtuple", "a": [ref], "sp": "tuple"}
     if k in ("list", "deque", "vtuple"):
-        return {"k": k, "a": [draw(sub(hashable=hashable))], "sp": draw(st.sampled_from(SPELLINGS[k]))}
+        g = {"k": k, "a": [draw(sub(hashable=hashable))], "sp": draw(st.sampled_from(SPELLINGS[k]))}
+        if names.adversarial and not has_kind(g, "ref"):
+            names.generics.append(g)
+        return g
     if k in ("set", "frozenset"):
         return {"k": k, "a": [draw(sub(hashable=True))], "sp": draw(st.sampled_from(SPELLINGS[k]))}
     if k == "tuple":
         n = draw(st.integers(1, 4))
         return {"k": "tuple", "a": [draw(sub(hashable=hashable)) for _ in range(n)], "sp": draw(st.sampled_from(SPELLINGS["tuple"]))}
     if k == "dict":
-        return {"k": "dict", "a": [draw(sub(key=True)), draw(sub())], "sp": draw(st.sampled_from(SPELLINGS["dict"]))}
+        g = {"k": "dict", "a": [draw(sub(key=True)), draw(sub())], "sp": draw(st.sampled_from(SPELLINGS["dict"]))}
+        if names.adversarial and not has_kind(g, "ref"):
+            names.generics.append(g)
+        return g
     if k == "optional":
         inner = draw(sub(hashable=hashable, unions=False))
         return {"k": "optional", "a": [inner], "sp": draw(st.sampled_from(["Optional", "pipe", "Union", "pipe_first"]))}
@@ -1049,8 +1083,8 @@ def specs(draw, names: Names | None = None, *, max_depth=3, hashable=False, key=
 @st.composite
 def class_specs(draw, names, *, max_depth, hashable, open_classes, kw):
     fl = draw(st.sampled_from(HASHABLE_FLAVOURS if hashable else CLASS_FLAVOURS))
-    name = names.fresh("C")
     mod = draw(st.integers(0, kw["mods"] - 1))
+    name = names.class_name(draw, mod)
     # a class with empty __slots__ has neither hints, slots nor __dict__: the library (by design)
     # tells structured objects from scalars by vars() failing, so such a class is outside U.
     nf = draw(st.integers(1 if fl in ("slots", "dc_slots") else 0, 4))
@@ -1083,6 +1117,8 @@ def class_specs(draw, names, *, max_depth, hashable, open_classes, kw):
     spec = {"k": "class", "name": name, "mod": mod, "flavour": fl, "future": future, "fields": fields}
     if fl == "dataclass" and draw(st.integers(0, 5)) == 0:
         spec["classvars"] = ["cv"]
+    if not has_kind(spec, "ref") or True:
+        names.closed.append((mod, name))
     return spec
 
 
